@@ -248,7 +248,6 @@ def mapped_norm_cases(ctx, o, n):
 
 
 def replay(ctx, path):
-    import json
-    d = json.load(open(path))
-    print(json.dumps(d, indent=1)[:4000])
-    return 0
+    import sys
+    from harness.common import generic_replay
+    return generic_replay(sys.modules[__name__], ctx, path)
